@@ -142,7 +142,7 @@ func c02Cipher(c *Ctx) {
 
 func c02Streams(c *Ctx) {
 	const rule = "C02.stream-wrappers"
-	c.R.Rule(rule, 4, "CipherReader/CipherWriter cipher exactly the transferred bytes at the running position and advance it by the transferred count; the writer never touches the caller's slice")
+	c.R.Rule(rule, 5, "CipherReader/CipherWriter cipher exactly the transferred bytes at the running position and advance it by the transferred count; the writer never touches the caller's slice")
 	L := c.readerLayout(rule)
 	if L == nil {
 		return
@@ -158,6 +158,25 @@ func c02Streams(c *Ctx) {
 	if wW < 0 || wMask < 0 || wPos < 0 {
 		c.R.Unknown(rule, rule+"/anchor:CipherWriter.fields", "-", "fields do not resolve")
 		return
+	}
+	// the running position is a stream offset handed to Cipher as its int offset: a narrower
+	// field wraps on long streams (a negative offset panics in Cipher, a wrapped one mis-aligns the key)
+	{
+		var problems []string
+		var want types.Type = types.Typ[types.Int]
+		if cf := c.P.Func(ws, "Cipher"); cf != nil && len(cf.Params) == 3 {
+			want = cf.Params[2].Type()
+		}
+		crs := structOf(crN)
+		for _, fl := range []struct {
+			owner string
+			t     types.Type
+		}{{"CipherReader", crs.Field(L.crPos).Type()}, {"CipherWriter", cws.Field(wPos).Type()}} {
+			if !types.Identical(fl.t, want) {
+				problems = append(problems, fmt.Sprintf("%s keeps its stream position in a %s, Cipher takes the offset as %s: the position wraps after 2^%d bytes of one stream", fl.owner, fl.t, want, map[bool]int{true: 31, false: 15}[strings.Contains(fl.t.String(), "32")]))
+			}
+		}
+		c.verdict(rule, rule+"/position-width", c.P.Pos(cwN.Obj().Pos()), problems, "both wrappers keep the position in Cipher's own offset type")
 	}
 	// constructors: whatever the wrapped stream is (another cipher wrapper, anything), the new
 	// wrapper works on exactly that stream with exactly the given key from position 0
